@@ -137,6 +137,20 @@ func parseArg(tok string) (*pb.Arg, error) {
 			return nil, err
 		}
 		return pb.Bytes(b), nil
+	case "raw": // raw:<arg type number>:<hex value> : an argument with an arbitrary type tag
+		q := strings.SplitN(v, ":", 2)
+		if len(q) != 2 {
+			return nil, fmt.Errorf("bad raw arg")
+		}
+		tn, err := strconv.Atoi(q[0])
+		if err != nil {
+			return nil, err
+		}
+		b, err := hex.DecodeString(q[1])
+		if err != nil {
+			return nil, err
+		}
+		return &pb.Arg{Type: pb.Arg_Type(tn), Value: b}, nil
 	case "x":
 		b, err := hex.DecodeString(v)
 		if err != nil {
@@ -148,6 +162,10 @@ func parseArg(tok string) (*pb.Arg, error) {
 }
 
 func fullSvc(s string) string {
+	if s == "~" {
+		return ""
+	}
+	s = strings.ReplaceAll(s, "\\_", " ")
 	// "c1:s1" -> "1356:c1:s1"; already-full ids (two colons) are kept
 	if strings.Count(s, ":") == 1 {
 		return fmt.Sprintf("%d:%s", bxhID, s)
